@@ -435,9 +435,13 @@ class Run(object):
                 self.raised_ok += 1
                 return "raised"
             self._fail("C04", "truncated_svd", "raised", {"exception": repr(exc)[:300]}, rec)
-        u, s, v = out
+        try:
+            u, s, v = out
+            u, s, v = np.asarray(u), np.asarray(s), np.asarray(v)
+            r = len(s)
+        except Exception as e:
+            self._fail("C04", "truncated_svd", "shapes", {"returned": repr(type(out))[:80], "problem": repr(e)[:200]}, rec)
         sv = env.REAL.np_svd(A, compute_uv=False)
-        r = len(s)
         if mr is not None and r > mr:
             self._fail("C04", "truncated_svd", "rank-cap", {"cap": mr, "got": r}, rec)
         if u.shape != (A.shape[0], r) or v.shape != (r, A.shape[1]):
@@ -518,7 +522,11 @@ class Run(object):
                 self.t = None
                 return "raised"
             self._fail("C05", "svd", "raised", {"exception": repr(exc)[:300], "args": a}, rec)
-        u, s, v = out
+        try:
+            u, s, v = out
+            len(s)
+        except Exception as e:
+            self._fail("C05", "svd", "shapes", {"returned": repr(type(out))[:80], "problem": repr(e)[:200]}, rec)
         for what, obj in (("u", u), ("v", v), ("input", t)):
             p = M.structural_problem(obj)
             if p is not None:
